@@ -69,6 +69,22 @@ CLAIMS.update({
     },
 })
 
+CLAIMS.update({
+    "C02": {
+        "text": "Tree half of the property only (the regex tree is one of the anchored mechanisms): after a retain that drops every value, or a removal, followed by a re-insertion into a case-insensitive tree, and after re-storing under an existing (pattern, id), the tree answers every ASCII haystack of the bound exactly like a freshly built one (independent linear-scan reference), its size equals the number of live values and the removal returns the removed value.",
+        "note": "1-pattern trees only, model regex engine and Vec-backed Leaf map. Everything at router level (insert / remove / batch_remove / apply_change_set / clone through the seven matcher layers, counts, get_route_by_id) is outside the claim: the router and even its lowest layer alone were measured out of CBMC's reach (DESIGN 3.3 c01_router, c02_layers).",
+        "design": "DESIGN.md §5 C02, §3.3",
+    },
+})
+
+CLAIMS.update({
+    "C17": {
+        "text": "Leaf level of the tree half only (regex_radix_tree/trace.rs is one of the anchored files): for a 1-pattern tree and every ASCII haystack of the bound, the values reported in the matched items of trace(h) are exactly the values find(h) returns, both equal the independent linear-scan reference, and the traced item reports the number of stored values.",
+        "note": "One leaf only (Leaf::trace, Item::trace, RegexTreeMap::trace), model regex engine; fields are read through cfg(kani) accessors. Node::trace on a 2-pattern tree was measured out of memory at 20 GB; every router-level trace (seven heap layers, header-condition cache, any-host fallback, final rule, action trace) is outside the claim (DESIGN 3.3).",
+        "design": "DESIGN.md §5 C17, §3.3",
+    },
+})
+
 NOT_APPLICABLE = {
     "C02": "every observable goes through seven nested std HashMap/BTreeMap layers and the heap-allocated regex tree; measured: CBMC does not finish even a 2-pattern tree lookup (DESIGN §2, C02)",
     "C03": "pending: text-filter chain harnesses are being sized; the HTML stage (tokenizer) is out of CBMC's reach (DESIGN §2 P1/P2, C03)",
